@@ -2616,13 +2616,19 @@ class SlicedMemoryIO(object):
         :py:class:`bytes`
             Data read from SpiNNaker as a bytestring.
         """
+        # Nothing can be read when positioned outside of the region (e.g.
+        # after seeking to a negative offset or beyond the end)
+        available = self._end_address - self.address
+        if self._offset < 0 or available < 0:
+            available = 0
+
         # If n_bytes is negative then calculate it as the number of bytes left
         if n_bytes < 0:
-            n_bytes = self._end_address - self.address
+            n_bytes = available
 
         # Determine how far to read, then read nothing beyond that point.
-        if self.address + n_bytes > self._end_address:
-            new_n_bytes = self._end_address - self.address
+        if n_bytes > available:
+            new_n_bytes = available
             warnings.warn("read truncated from {} to {} bytes".format(
                 n_bytes, new_n_bytes), TruncationWarning, stacklevel=3)
             n_bytes = new_n_bytes
@@ -2659,8 +2665,14 @@ class SlicedMemoryIO(object):
         int
             Number of bytes written.
         """
-        if self.address + len(bytes) > self._end_address:
-            n_bytes = self._end_address - self.address
+        # Nothing can be written when positioned outside of the region (e.g.
+        # after seeking to a negative offset or beyond the end)
+        available = self._end_address - self.address
+        if self._offset < 0 or available < 0:
+            available = 0
+
+        if len(bytes) > available:
+            n_bytes = available
 
             warnings.warn("write truncated from {} to {} bytes".format(
                 len(bytes), n_bytes), TruncationWarning, stacklevel=3)
